@@ -345,11 +345,11 @@ PROPS["C09"] = {
     "assumptions": ["crypto/tls follows its documented Config contract: a full handshake calls VerifyPeerCertificate then VerifyConnection; unless SessionTicketsDisabled is set a ticket is issued and a connection offering it is resumed with the ticket's peer certificates, calling only VerifyConnection (InsecureSkipVerify is set by the code, so nothing else decides admission)"],
 }
 
-C15_Q = ["Harness_C15_root_0", "Harness_C15_root_2", "Harness_C15_sub_0_2", "Harness_C15_sub_1_0", "Harness_C15_sub_1_1", "Harness_C15_sub_2_0", "Harness_C15_sub_2_2", "Harness_C15_root_2d", "Harness_C15_sub_1_2d", "Harness_C15_sequence_0_4", "Harness_C15_sequence_1_5"]
+C15_Q = ["Harness_C15_root_0", "Harness_C15_root_2", "Harness_C15_sub_0_2", "Harness_C15_sub_1_0", "Harness_C15_sub_1_1", "Harness_C15_sub_2_0", "Harness_C15_sub_2_2", "Harness_C15_root_2d", "Harness_C15_sub_1_2d", "Harness_C15_sequence_0_4", "Harness_C15_sequence_1_5", "Harness_C15_publish_closing"]
 PROPS["C15"] = {
     "jobs": [{"pkg": "pubsub", "files": ["harness/C15/bus.go"], "shims": ["shim.go.tmpl", "shim_loop.go.tmpl"],
               "quick": C15_Q, "thorough": C15_Q + ["Harness_C15_sub_3_1", "Harness_C15_root_3d", "Harness_C15_sequence_2_6"], "opts": {"timeout": 20000, "witness": 4},
-              "reach": {"Harness_C15_sub_2_2": ["stepped"]}},
+              "reach": {"Harness_C15_sub_2_2": ["stepped"], "Harness_C15_publish_closing": ["returned"]}},
              {"pkg": "events", "files": ["harness/C15/feeder.go"], "shims": ["shim.go.tmpl", "shim_loop.go.tmpl"],
               "quick": ["Harness_C15_feeder"], "thorough": ["Harness_C15_feeder"], "opts": {"timeout": 20000, "witness": 2},
               "reach": {"Harness_C15_feeder": ["fed"]}}],
